@@ -521,7 +521,8 @@ Inductive cop : Type :=
 | OMatmul (a b : nat)
 | OMap (mutating : bool) (e : sexpr) (a : nat)
 | OFromIter (tensor : bool) (sh : shape) (colmajor : bool) (e : sexpr) (a : nat)
-| OFromIters2 (e1 e2 : sexpr) (a : nat).
+| OFromIters2 (e1 e2 : sexpr) (a : nat)
+| OView (kind : nat) (a : nat).
 
 Definition cstate : Type := tape * list cont.
 
@@ -596,6 +597,28 @@ Definition cstep (st : cstate) (o : cop) : option (outcome (tape * list cont)) :
           | Some (Err e0) => Some (Err e0)
           | Some Panic => Some Panic
           | None => None
+          end
+      | None => None
+      end
+  | OView kind a =>
+      (* a container whose SOURCE is a view of container a (from_existing over the view):
+           0  RecordMatrix over a column-major MatrixRefTensor of the transposed TensorAccess of
+              a 2-dimensional record tensor (interop): the transposed matrix
+           1  RecordTensor over the TensorAccess with the two dimensions swapped
+           3  a detached copy: from_existing(None, ..) with the numbers of a and relabelled,
+              meaningless indexes (a constants container never has its indexes read)
+         model-wise a permutation / relabelling of the element list *)
+      match get a with
+      | Some x =>
+          match kind, c_tensor x, c_shape x with
+          | 0, true, [(n0, r); (n1, c)] =>
+              Some (Ok (t, [mkCont false [(0, c); (1, r)] (column_major (c_shape x) (c_data x)) (c_hist x)]))
+          | 1, true, [(n0, r); (n1, c)] =>
+              Some (Ok (t, [mkCont true [(n1, c); (n0, r)] (column_major (c_shape x) (c_data x)) (c_hist x)]))
+          | 3, _, _ =>
+              Some (Ok (t, [mkCont (c_tensor x) (c_shape x)
+                                   (map (fun p => (fst p, snd p + 5000)) (c_data x)) None]))
+          | _, _, _ => None
           end
       | None => None
       end
@@ -774,6 +797,20 @@ Definition estep (st : estate) (o : cop) : option (outcome (tape * list econt)) 
           | Some r => Some (omap (fun p => (fst p, [mkECont (e_tensor x) (e_shape x) (fst (snd p));
                                                     mkECont (e_tensor x) (e_shape x) (snd (snd p))])) r)
           | None => None
+          end
+      | None => None
+      end
+  | OView kind a =>
+      match get a with
+      | Some x =>
+          match kind, e_tensor x, e_shape x with
+          | 0, true, [(n0, r); (n1, c)] =>
+              Some (Ok (t, [mkECont false [(0, c); (1, r)] (column_major (e_shape x) (e_recs x))]))
+          | 1, true, [(n0, r); (n1, c)] =>
+              Some (Ok (t, [mkECont true [(n1, c); (n0, r)] (column_major (e_shape x) (e_recs x))]))
+          | 3, _, _ =>
+              Some (Ok (t, [mkECont (e_tensor x) (e_shape x) (map (fun q => rec_constant (r_num q)) (e_recs x))]))
+          | _, _, _ => None
           end
       | None => None
       end
